@@ -121,12 +121,12 @@ ALPHABETS = {
     # C07: unidentified store, list model
     'c07': ['create_file:S', 'create_file:L', 'create_mem:S', 'create_mem:L', 'add', 'read:0', 'read:mid',
             'read:last', 'read:end', 'iter', 'len', 'sync', 'close', 'append:S', 'append:L', 'open:S',
-            'open:L', 'save'],
+            'open:L', 'save', 'save_bad'],
     # C07 with every trajectory split over a base and an associated file (+ species-rejected additions)
     'c07a': ['create_file:S', 'create_file:L', 'add', 'add_bad_species', 'read:0', 'read:last', 'read:end', 'iter', 'sync', 'close',
              'append:S', 'append:L', 'open:S'],
     'c07q': ['create_file:S', 'create_mem:S', 'create_file:L', 'add', 'read:0', 'read:last', 'read:end',
-             'iter', 'sync', 'close', 'append:S', 'append:L', 'open:S', 'save'],
+             'iter', 'sync', 'close', 'append:S', 'append:L', 'open:S', 'save', 'save_bad'],
     # C08: identified store, dict model
     'c08': ['create_file:S', 'create_file:L', 'create_mem:L', 'save', 'add', 'add_bad_ident', 'get:first', 'get:last', 'get:absent',
             'read:0', 'sync', 'close', 'append:S', 'append:L', 'open:S', 'open:L'],
@@ -172,6 +172,9 @@ class StoreDriver:
                 ok = s is not None and (op == 'add_bad_missing' or m['added'] < self.max_traj)
             elif op == 'save':
                 ok = s is not None and s['mode'] == 'mem' and len(s['items']) > 0 and m['file'] is None
+            elif op == 'save_bad':
+                # a save that must be refused (the target already exists): the store stays in memory
+                ok = s is not None and s['mode'] == 'mem' and len(s['items']) > 0
             elif op in ('read', 'iter', 'len', 'sync', 'close', 'get'):
                 ok = s is not None
             else:
@@ -246,6 +249,8 @@ class StoreDriver:
         if op == 'close':
             m['session'] = None
             return m, ('ok', None)
+        if op == 'save_bad':
+            return m, ('refused',)
         if op == 'save':
             s['mode'] = 'create'
             s['written'] = True
@@ -371,6 +376,11 @@ class StoreDriver:
             if op == 'close':
                 store.close()
                 return ('ok', None), None
+            if op == 'save_bad':
+                taken = path.parent / 'taken.nc'
+                taken.write_bytes(b'occupied')
+                store.save(taken)
+                return ('ok', None), store
             if op == 'save':
                 store.save(path, **ckw)
                 return ('ok', None), store
